@@ -300,7 +300,7 @@ def oracle_c07(case, out, raw):
         return [("panic", "analysis panicked at %s: %s" % ((raw or {}).get("site"), (raw or {}).get("panic")))]
     ds = []
     key_of_path = {t["path"]: (t["pkg"], t["name"]) for t in case["truth"]}
-    seen_full, seen_ident = {}, {}
+    seen_full, seen_ident, seen_bs = {}, {}, {}
     for ri, (run, res) in enumerate(zip(case["runs"], out["runs"])):
         for p in set(run):
             reps = run.count(p)
@@ -317,6 +317,17 @@ def oracle_c07(case, out, raw):
                 elif seen_full[p][1] != txt:
                     ds.append(("c07-full-entry-differs", "model entries of %s differ between run %d %s and run %d %s: %s" % (
                         p, seen_full[p][0], case["runs"][seen_full[p][0]], ri, run, first_diff(json.loads(seen_full[p][1]), ch))))
+            # bad-smell entries of the file, per run position
+            for pos, q in enumerate(run):
+                if q != p or not isinstance(res.get("bs"), list) or pos >= len(res["bs"]):
+                    continue
+                txt = json.dumps(sorted(res["bs"][pos], key=lambda f: json.dumps(f, sort_keys=True)), sort_keys=True)
+                if p not in seen_bs:
+                    seen_bs[p] = (ri, txt)
+                elif seen_bs[p][1] != txt:
+                    ds.append(("c07-bs-entry-differs", "bad-smell entries of %s differ between run %d %s and run %d %s: %s vs %s" % (
+                        p, seen_bs[p][0], case["runs"][seen_bs[p][0]], ri, run,
+                        [(f["Bs"], f["Line"]) for f in json.loads(seen_bs[p][1])], [(f["Bs"], f["Line"]) for f in json.loads(txt)])))
             k = key_of_path.get(p)
             idm = [n for n in res.get("identifiers", []) if (n["Package"], n["NodeName"]) == k]
             if idm and len(idm) % reps == 0:
@@ -366,7 +377,7 @@ RULES = {
             "(shadowing each other legally), static Type.m(), chained a.b().c(), this.field.m(), with nested call / creation / literal arguments; "
             "positions at any column and line"),
     "C07": ("same projects; per tree 6-7 runs in ONE process with the identifier set held fixed: sorted order, a random permutation, reversed, a random subset in random "
-            "order, one file alone, one file twice, and the first run again; the per-file entries of the full pass and of the identifier pass must be identical in every run"),
+            "order, one file alone, one file twice, and the first run again; the per-file entries of the full pass, of the identifier pass and of the bad-smell pass (real BadSmellApp on a directory laid out in the run's order) must be identical in every run"),
 }
 ASSUMPTIONS = ["generated Java is legally scoped (a local may hide a field, not a parameter or an enclosing local; an initializer does not mention its own variable)",
                "a receiver's declared type counts as 'plain class name' only without type arguments or array brackets",
@@ -381,7 +392,7 @@ def make(prop):
     m = M()
     m.PROP = prop
     m.FAMILY = FAMILY
-    m.GEN_GROUPS = GEN_GROUPS + (["Ident", "Call", "Api"] if prop == "C07" else [])
+    m.GEN_GROUPS = GEN_GROUPS + (["Ident", "Call", "Api", "Bs"] if prop == "C07" else [])
     m.PROPS = [prop] + (["C01Ident"] if prop in ("C01", "C07") else []) + (["C01Iface"] if prop == "C01" else [])
     m.gen = gen_c07 if prop == "C07" else gen
     m.view = view
